@@ -327,7 +327,21 @@ func (fc *followerController) Truncate(req *proto.TruncateRequest) (*proto.Trunc
 	}
 
 	fc.status = proto.ServingStatus_FOLLOWER
-	headOffset, err := fc.wal.TruncateLog(req.HeadEntryId.Offset)
+
+	// The leader asks to keep its entry `req.HeadEntryId` and whatever precedes it. This follower
+	// might hold, at or below that offset, entries of a later term that the leader has never seen
+	// (written by a previous leader and never committed): they have to be removed as well,
+	// otherwise they would be taken for the leader's entries at the same offsets.
+	truncateOffset := req.HeadEntryId.Offset
+	lastEntryUpToTerm, err := getHighestEntryOfTerm(fc.wal, req.HeadEntryId.Term)
+	if err != nil {
+		return nil, errors.Wrap(err, "failed to read the wal before truncating")
+	}
+	if lastEntryUpToTerm.Offset < truncateOffset {
+		truncateOffset = lastEntryUpToTerm.Offset
+	}
+
+	headOffset, err := fc.wal.TruncateLog(truncateOffset)
 	if err != nil {
 		return nil, errors.Wrapf(err, "failed to truncate wal. truncate-offset: %d - wal-last-offset: %d",
 			req.HeadEntryId.Offset, fc.wal.LastOffset())
